@@ -260,7 +260,7 @@ def main():
         else:
             accs = [ACCS[(idx + ck.seed) % 6]]
         for acc in accs:
-            opts = ["--accelerator-config", acc]
+            opts = ["--accelerator-config", acc] + list(getattr(net, "extra_opts", []))
             if (idx + ck.seed) % 5 == 0:
                 opts.append("--show-cpu-operations")
             jobs.append((ck.seed, idx, label, data, opts, getattr(net, "tgt", None)))
@@ -400,8 +400,13 @@ def main():
             ck.count("structure_" + kind)
             if rep_struct[kind] > 2:
                 continue
-            ck.violation(f"'{r['label']}' ({r['opts'][1]}): {pr[:300]} — a source operator is not accounted for exactly once (inside an Ethos-U operator "
-                         "or verbatim on the CPU), or a CPU-resident operator of the output differs from the source",
+            if kind in ("operator-lost", "preserved-and-absorbed", "operator-duplicated", "unaccounted", "operator-without-source", "operator-ambiguous-source"):
+                why = "a source operator is not accounted for exactly once (inside an Ethos-U operator or on the CPU)"
+            elif kind.startswith("ethosu-") or kind in ("internal", "dangling-index", "duplicate-tensor-name", "two-producers", "not-topological"):
+                why = "the output file is not a well-formed placement of the source operators"
+            else:
+                why = "an operator left on the CPU is not written unchanged"
+            ck.violation(f"'{r['label']}' ({' '.join(r['opts'][1:])}): {why}: {pr[:300]}",
                          {"label": r["label"], "opts": r["opts"], "seed": ck.seed, "index": r["idx"], "problems": probs[:2000], "fates": r.get("fates"),
                           "lean": "VelaVerif.Placement.report (Spec/Placement.lean)"}, found_input=True)
     committed_doc = []
